@@ -239,6 +239,26 @@ def treeVerdictSet (h1 : Heap) (root v : Val) (m : MNode Val) (h' : Heap) : Stri
       | some j' => if sameJ j' (unfoldVal h' 64 root) then "ok" else "BAD"
       | none => "BAD"
 
+def namesOfSteps : List (Step Val) → Option (List Name)
+  | [] => some []
+  | .key k :: rest => (namesOfSteps rest).map (Name.key k :: ·)
+  | .idx i :: rest => (namesOfSteps rest).map (Name.idx i :: ·)
+  | _ :: _ => none
+
+/-- the same for a cascading assignment along a path of keys / indices: `J.cascadeAt` -/
+def treeVerdictCascade (h1 : Heap) (root v : Val) (steps : List (Step Val)) (h' : Heap) : String :=
+  let j := unfoldVal h1 64 root
+  let jv := unfoldVal h1 64 v
+  let fr := fpJ h1 j root
+  let fv := fpJ h1 jv v
+  if !nodupB fr || !nodupB fv || fv.any (fr.contains ·) then "na"
+  else match namesOfSteps steps with
+    | none => "na"
+    | some names =>
+      match J.cascadeAt j names jv with
+      | some j' => if sameJ j' (unfoldVal h' 64 root) then "ok" else "BAD"
+      | none => "BAD"
+
 def treeVerdictPop (h : Heap) (root : Val) (last : Option (Step Val)) (m : MNode Val) (h' : Heap) : String :=
   let j := unfoldVal h 64 root
   if !nodupB (fpJ h j root) then "na"
@@ -264,14 +284,14 @@ def runOp (st : MState) (op : Json) : E (MState × Json) := do
     let (h, v) ← decValSpec st vs
     match setMatch (stepsOfJson p) src cascade h v with
     | (h', .ok m) =>
-      let t := if cascade then "na" else treeVerdictSet h st.root v m h'
+      let t := if cascade then treeVerdictCascade h st.root v (stepsOfJson p h) h' else treeVerdictSet h st.root v m h'
       return withT (finish { st with heap := h' } "ok" [] (some m.data)) t
     | (h', .error e) => return finishErr { st with heap := h' } (errJ e)
   | [.str "set_match", p, vs, .bool cascade] => do
     let (h, v) ← decValSpec st vs
     match setMatch (stepsOfJson p) src cascade h v with
     | (h', .ok m) =>
-      let t := if cascade then "na" else treeVerdictSet h st.root v m h'
+      let t := if cascade then treeVerdictCascade h st.root v (stepsOfJson p h) h' else treeVerdictSet h st.root v m h'
       return withT (finish { st with heap := h' } "match" (matchPre m) (some m.data)) t
     | (h', .error e) => return finishErr { st with heap := h' } (errJ e)
   | [.str "mset", sp, k, p, vs, .bool cascade] => do
